@@ -74,6 +74,10 @@ def expected_first_sample(case, leaves):
             x = init[f"x{i}"].copy()
             if j == "det":
                 x[:, 0] = x[:, 0] * np.uint32(2) + np.uint32(7)
+            elif j == "sum":
+                # non-element-wise: own first entry + sum of the chain's OWN entries
+                for c in range(x.shape[0]):
+                    x[c, 0] = np.uint32((int(x[c, 0]) + sum(int(v) for v in init[f"x{i}"][c])) % (1 << 32))
             elif j == "key":
                 got = leaves[f"['positions']['x{i}']"][:, 0]
                 k0 = got[:, 1].astype(np.uint32)
@@ -84,6 +88,10 @@ def expected_first_sample(case, leaves):
         if j == "det":
             exp["a"] = init["a"] + np.float32(0.25)
             exp["b"] = init["b"] + np.float32(0.25)
+        elif j == "sum":
+            # dyadic values: exact in float32
+            exp["a"] = (init["a"] + init["a"]).astype(np.float32)
+            exp["b"] = (init["b"] + init["b"].sum(axis=1, keepdims=True)).astype(np.float32)
         elif j == "none":
             exp["a"] = init["a"]
             exp["b"] = init["b"]
